@@ -336,7 +336,11 @@ def r07_3_5(ctx, run, rule3='R07.3', rule5='R07.5'):
                     a = ex_.operand(t['args'][1])
                     if any(x[0] == 'call' and canon(x[1]).endswith(('str::as_bytes', 'String::as_bytes')) for x in walk(a)):
                         kw += 1
-                        src_ok = any(x[0] == 'call' and 'btree_map' in x[1] and canon(x[1]).endswith('Iterator::next') for x in walk(a))
+                        # the key is an item of an ordered-map iteration, possibly wrapped in adaptors that keep the order (enumerate, by_ref ...)
+                        src_ok = any(x[0] == 'call' and (('btree_map' in x[1] and canon(x[1]).endswith('Iterator::next')) or
+                                                        canon(x[1]).endswith(('BTreeMap::keys', 'BTreeMap::iter', 'BTreeMap::into_keys', 'BTreeMap::into_iter')) or
+                                                        ('BTreeMap' in x[1] and canon(x[1]).endswith('IntoIterator::into_iter'))) for x in walk(a)) \
+                            and not any(x[0] == 'call' and canon(x[1]).split('::')[-1] in ('rev', 'sort', 'sort_by', 'sort_unstable', 'chain', 'zip', 'filter_map', 'flat_map') for x in walk(a))
                         if not src_ok:
                             bad_.append(f"{t.get('file')}:{t.get('line')}")
             return kw, bad_
